@@ -112,3 +112,43 @@ Example ex_reach_disjoint :
   | Err _ _ => False
   end.
 Proof. vm_compute. split; reflexivity. Qed.
+
+(* ------------------------------------------------------------------------------------------------
+   Tie to the code (Gen/Fns.v is regenerated from base.rs / layout.rs / transactions.rs on every run by
+   tools/gen_fns.py): the page-number packing, the page address arithmetic and the file geometry of the
+   decoder (Format/Codec.v) are equal to the functions translated from the Rust sources. *)
+From RV Require Import Gen.FnsLib Gen.Fns Gen.FnsFormatP.
+
+Theorem c10_code_pagenum_to_u64_is_model : forall p,
+  PageNumber_to_le_bytes p = pagenum_to_u64 (pagenum_of p).
+Proof. exact pagenum_to_u64_is_model. Qed.
+
+Theorem c10_code_pagenum_of_u64_is_model : forall t, t < 2 ^ 64 ->
+  pagenum_of (PageNumber_from_le_bytes t) = pagenum_of_u64 t.
+Proof. exact pagenum_of_u64_is_model. Qed.
+
+Theorem c10_code_pagenum_from_le_bytes_guard_holds : forall t, PageNumber_from_le_bytes_guard t = true.
+Proof. exact pagenum_from_le_guard. Qed.
+
+Theorem c10_code_page_len_is_model : forall g p, PageNumber_f_page_order p <= MAX_MAX_PAGE_ORDER ->
+  PageNumber_page_size_bytes p (g_psz g) = page_len g (pagenum_of p).
+Proof. exact page_len_is_model. Qed.
+
+Theorem c10_code_page_range_is_model : forall g p, PageNumber_f_page_order p <= MAX_MAX_PAGE_ORDER ->
+  PageNumber_address_range p (g_psz g) (region_len g) (g_hdr_pages g * g_psz g) (g_psz g)
+  = (page_start g (pagenum_of p), page_end g (pagenum_of p)).
+Proof. exact page_range_is_model. Qed.
+
+Theorem c10_code_geom_of_len_is_model : forall psz hdr maxp file_len,
+  geom_of_layout (DatabaseLayout_recalculate file_len hdr maxp psz) = geom_of_len psz hdr maxp file_len.
+Proof. exact geom_of_len_is_model. Qed.
+
+Theorem c10_code_region_len_is_model : forall d,
+  RegionLayout_len (DatabaseLayout_f_full_region_layout d) = region_len (geom_of_layout d).
+Proof. exact region_len_is_model. Qed.
+
+Theorem c10_code_pagenum_serialized_size_is_model : PageNumber_serialized_size = 8.
+Proof. exact pagenum_size_is_model. Qed.
+
+Theorem c10_code_pagelist_required_bytes_is_model : forall n, PageList_required_bytes n = 2 + 8 * n.
+Proof. exact pagelist_required_is_model. Qed.
